@@ -9,6 +9,7 @@ package dnsforward
 // log sink.
 
 import (
+	"slices"
 	"context"
 	"fmt"
 	"net"
@@ -156,6 +157,11 @@ type vkConf struct {
 	// HTTP makes the filter register its admin API handlers (captured in
 	// vkServer.Handlers) and start its background loop, as home does.
 	HTTP bool
+	// Dir, if not empty, is the data directory of an earlier instance that is
+	// used again (restart); Disk is then the configuration that instance
+	// wrote (lists with their IDs, custom rules, switches).
+	Dir  string
+	Disk *filtering.Config
 }
 
 // vkServer bundles a running server with its observers.
@@ -216,15 +222,18 @@ func vkStartOnce(c *vkConf) (vs *vkServer, err error) {
 	vkInitOnce.Do(func() { filtering.InitModule() })
 	ctx := context.Background()
 
-	dir, err := os.MkdirTemp(os.Getenv("VERIF_SCRATCH"), "srv-")
-	if err != nil {
-		return nil, err
-	}
-	defer func() {
+	dir := c.Dir
+	if dir == "" {
+		dir, err = os.MkdirTemp(os.Getenv("VERIF_SCRATCH"), "srv-")
 		if err != nil {
-			_ = os.RemoveAll(dir)
+			return nil, err
 		}
-	}()
+		defer func() {
+			if err != nil {
+				_ = os.RemoveAll(dir)
+			}
+		}()
+	}
 	if err = os.MkdirAll(filepath.Join(dir, "filters"), 0o755); err != nil {
 		return nil, err
 	}
@@ -252,6 +261,11 @@ func vkStartOnce(c *vkConf) (vs *vkServer, err error) {
 	case -1:
 		t := time.Now().Add(-time.Hour)
 		fconf.ProtectionDisabledUntil = &t
+	}
+	if c.Disk != nil {
+		fconf.Filters = slices.Clone(c.Disk.Filters)
+		fconf.WhitelistFilters = slices.Clone(c.Disk.WhitelistFilters)
+		fconf.UserRules = slices.Clone(c.Disk.UserRules)
 	}
 	for _, l := range c.Lists {
 		fy := filtering.FilterYAML{Enabled: true, URL: fmt.Sprintf("https://lists.invalid/%d.txt", l.ID), Name: fmt.Sprintf("l%d", l.ID)}
@@ -356,6 +370,18 @@ func (vs *vkServer) stop() {
 	_ = vs.S.Stop()
 	vs.F.Close()
 	_ = os.RemoveAll(vs.dir)
+}
+
+// stopKeep stops the server like a clean shutdown and returns what it would
+// have saved; the data directory stays for the next instance.
+func (vs *vkServer) stopKeep() (disk *filtering.Config, dir string) {
+	disk = &filtering.Config{}
+	vs.F.WriteDiskConfig(disk)
+	vs.closed = true
+	_ = vs.S.Stop()
+	vs.F.Close()
+
+	return disk, vs.dir
 }
 
 // vkExchange sends one query from source address src (a loopback alias) over
